@@ -1,0 +1,7 @@
+//go:build !verif
+
+package godi
+
+// verifPoint marks a schedule point for the external verification harness
+// (see verif_points.go, build tag "verif"). It does nothing in normal builds.
+func verifPoint(string) {}
